@@ -10,6 +10,11 @@ NOTE = ('trusted: llsymex IR semantics (validated by native replay of explored p
         'constant-hash stub for RandomState, single thread, opt-level 0 IR; bounds per evidence.coverage.bounds')
 
 CLAIMED = {
+    'C12': ('4.C12', 'merge_partitions explored on every feasible path for n x m <= 2x2 (quick) / 3x3 (thorough) symbolic intervals; refinement, '
+            'maximality on adjacent characters, complement = intersection with least witness, well-formedness; algebraic laws and '
+            'merge_partition_list order independence on triples of partitions'),
+    'C20': ('4.C20', 'full-width symbolic check of every CharSet operation against its set-theoretic definition (two symbolic intervals, '
+            'symbolic u32 member); inter_list up to 3/4 sets'),
     'C11': ('4.C11', 'all feasible paths of the real CharPartition code for partitions of up to 3 (quick) / 4 (thorough) intervals with every '
             'end point, query character, query set and class index symbolic over the full range; construction via push, from_set, try_from_iter/list '
             'over permutations; solver verdict per path, no sampling inside the bound'),
